@@ -612,7 +612,12 @@ def roundtrip_case(args):
         import sysloss
         cur = [int(x) for x in re.findall(r"[0-9]+", sysloss.__version__)[:3]] + [0, 0, 0]
         doc0 = json.load(open(p))
-        for newer in ("99.0.0", "%d.%d.%d" % (cur[0], cur[1], cur[2] + 1), "%d.%d.0" % (cur[0], cur[1] + 1)):
+        from packaging import version as _pv
+        base = "%d.%d.%d" % (cur[0], cur[1], cur[2]); nxt = "%d.%d.%d" % (cur[0], cur[1], cur[2] + 1)
+        # PEP 440 forms that are newer without a higher release number (post-releases, local versions, epochs) and pre-releases of the next version;
+        # the order itself is packaging.version's (trusted)
+        cands = ["99.0.0", nxt, "%d.%d.0" % (cur[0], cur[1] + 1), "%d.0.0" % (cur[0] + 1), base + ".post1", base + "+vendor.2", base + ".post2.dev1", nxt + "rc1", nxt + ".dev3", "1!0.0.1"]
+        for newer in [c_ for c_ in cands if _pv.parse(c_) > _pv.parse(sysloss.__version__)]:
             doc = copy.deepcopy(doc0); doc["system"]["version"] = newer; json.dump(doc, open(p, "w"))
             try:
                 System.from_file(p); F("rt.version", "a file written by the newer version %s (installed %s) was accepted" % (newer, sysloss.__version__))
@@ -927,22 +932,44 @@ def toml_case(args):
         else:
             with open(p, "w") as f: toml.dump(doc, f)
         K = getattr(C, cls)
+        from sysloss.system import System
+        def host(comp):
+            if cls == "Source":
+                s = System("h", comp); s.add_comp("X", comp=C.ILoad("L", ii=0.2)); return s
+            s = System("h", C.Source("S0", vo=12.0, rs=0.02))
+            s.add_comp("S0", comp=comp)
+            if cls not in ("PLoad", "ILoad", "RLoad"): s.add_comp("X", comp=C.ILoad("L", ii=0.2, rt=3.0))
+            return s
+        # the constructor twin, its report rows and its solved host are evaluated BEFORE the file is loaded (the reference of the
+        # property is the constructor call on its own); module-level defaults are snapshotted around the load
+        mod0 = {k_: copy.deepcopy(v_) for k_, v_ in vars(C).items() if k_.isupper() and isinstance(v_, (dict, list))}
+        c2 = e2 = h2 = row2 = o2 = d2 = None
+        if mode == "ok":
+            kw = dict(doc[TOML_SECTION[cls]])
+            if lim is not None: kw["limits"] = lim
+            try:
+                c2 = K("X", **copy.deepcopy(kw))
+            except Exception as e:
+                e2 = e
+            if c2 is not None:
+                h2 = host(c2); row2 = h2.params(limits=True); o2, d2 = _solve_outcome(h2, ta=30.0)
         try:
             c1 = K.from_file("X", fname=p); e1 = None
         except Exception as e:
             c1, e1 = None, e
+        mod1 = {k_: v_ for k_, v_ in vars(C).items() if k_ in mod0}
+        for k_ in mod0:
+            if mod1.get(k_) != mod0[k_]:
+                F("toml.module-state", "%s.from_file changed the module-level default %s to %r (it was %r): components built afterwards no longer equal their constructor call in a fresh process" % (cls, k_, mod1.get(k_), mod0[k_]))
+                # harness hygiene: later cases of this worker start from the pristine defaults again
+                if isinstance(mod1.get(k_), dict): mod1[k_].clear(); mod1[k_].update(copy.deepcopy(mod0[k_]))
+                elif isinstance(mod1.get(k_), list): mod1[k_][:] = copy.deepcopy(mod0[k_])
         if mode == "missing":
             if not isinstance(e1, KeyError): F("toml.missing", "%s file without a mandatory key: %s instead of KeyError" % (cls, type(e1).__name__ if e1 else "a component was built"))
             return out
         if mode == "wrongtype":
             if not isinstance(e1, ValueError): F("toml.wrongtype", "%s file with a wrongly typed value %r: %s instead of ValueError" % (cls, doc[TOML_SECTION[cls]], type(e1).__name__ if e1 else "a component was built"))
             return out
-        kw = dict(doc[TOML_SECTION[cls]])
-        if lim is not None: kw["limits"] = lim
-        try:
-            c2 = K("X", **copy.deepcopy(kw)); e2 = None
-        except Exception as e:
-            c2, e2 = None, e
         if (e1 is None) != (e2 is None) or (e1 is not None and type(e1) != type(e2)):
             F("toml.accept", "%s: loader %s, constructor %s" % (cls, type(e1).__name__ if e1 else "ok", type(e2).__name__ if e2 else "ok")); return out
         if c1 is None: return out
@@ -962,18 +989,10 @@ def toml_case(args):
         if c1._params != c2._params: F("toml.params", "%s: loader _params %s != constructor _params %s" % (cls, c1._params, c2._params))
         if c1._limits != c2._limits: F("toml.limits", "%s: loader limits %s != constructor limits %s" % (cls, c1._limits, c2._limits))
         # same params()/limits() row and same behaviour in a solved system
-        from sysloss.system import System
-        def host(comp):
-            if cls == "Source":
-                s = System("h", comp); s.add_comp("X", comp=C.ILoad("L", ii=0.2)); return s
-            s = System("h", C.Source("S0", vo=12.0, rs=0.02))
-            s.add_comp("S0", comp=comp)
-            if cls not in ("PLoad", "ILoad", "RLoad"): s.add_comp("X", comp=C.ILoad("L", ii=0.2, rt=3.0))
-            return s
-        h1, h2 = host(c1), host(c2)
-        d = frames_differ(h1.params(limits=True), h2.params(limits=True), ["Component"])
+        h1 = host(c1)
+        d = frames_differ(h1.params(limits=True), row2, ["Component"])
         if d: F("toml.paramsrow", "%s: params()/limits() row differs: %s" % (cls, d))
-        o1, d1 = _solve_outcome(h1, ta=30.0); o2, d2 = _solve_outcome(h2, ta=30.0)
+        o1, d1 = _solve_outcome(h1, ta=30.0)
         if o1 != o2: F("toml.solve", "%s: host system with loaded component -> %s, with constructed twin -> %s" % (cls, o1, o2))
         elif o1 == "table":
             d = frames_differ(d1, d2, ["Component"])
@@ -1045,6 +1064,9 @@ def analysis_case(args):
     for op in recipe["ops"]:
         if "comp" in op and rnd.random() < 0.3:
             op["comp"]["args"].setdefault("limits", {})[rnd.choice(["vo", "vi", "io", "pl"])] = rnd.choice([[-5.5, -4.5], [6.0, 0.0], [-1e6, 0.0]])
+        # bounds beyond the default +-1e6 ("no limit": inf, megawatt scale): legal, reported and saved as given
+        if "comp" in op and rnd.random() < 0.25:
+            op["comp"]["args"].setdefault("limits", {})[rnd.choice(["vi", "vo", "ii", "io", "pi", "po", "pl", "tp"])] = rnd.choice([[0.0, 5e6], [0.0, float("inf")], [-float("inf"), float("inf")], [-2e6, 1e6]])
     out = {"hash": _hash(recipe), "failures": [], "nontrivial": True, "sample": None, "outcome": None}
     def F(key, text): out["failures"].append({"key": key, "text": text, "props": ["C17"], "recipe": recipe})
     s, _ = gen.build(recipe)
@@ -1187,9 +1209,12 @@ def battlife_case(args):
         # a battery model that answers with a malformed state (no impedance / no capacity): whatever batt_life raises, the battery is as before
         bad = rnd.choice([lambda: (cap0, v0), lambda: (None, v0, r0), lambda: [cap0], lambda: (cap0, v0, r0)])
         calls = {"n": 0}
+        nan_after = rnd.choice([0, 0, 1, 4])
         def df_bad(dt, cur):
             calls["n"] += 1
-            return rnd.choice([(cap0 / 2, v0), None, (cap0 / 2,)])
+            # ... or, after some well-formed steps, a non-finite remaining capacity
+            if calls["n"] <= nan_after: return (cap0 * (1 - 0.01 * calls["n"]), v0 * 0.99, r0 * 1.5)
+            return rnd.choice([(cap0 / 2, v0), None, (cap0 / 2,), (float("nan"), v0 * 0.9, r0 * 2), (float("inf"), v0 * 0.9, r0 * 2), (-float("inf"), v0 * 0.9, r0 * 2)])
         try:
             with contextlib.redirect_stderr(_io.StringIO()):
                 s.batt_life(batt, cutoff=cutoff, pfunc=bad, dfunc=df_bad)
